@@ -14,6 +14,7 @@ import SuccinctlyVerif.Proof.BPNavEq
 import SuccinctlyVerif.Proof.BPClose3
 import SuccinctlyVerif.Proof.BPSibling
 import SuccinctlyVerif.Proof.BPFast2
+import SuccinctlyVerif.Proof.BPSelect0
 namespace SV.Props.C04
 open SV SV.BP SV.BPM
 
@@ -318,14 +319,29 @@ theorem storage_strays_variant_irrelevant (simd simd' owned owned' : Bool) (ws w
 
 example : bitsOf [0xFFFFFFFFFFFFFFCB#64] 6 = bitsOf [0xB#64] 6 := by decide +kernel
 
+/-- `total_ones()` = number of opens among the first `len` bits (stray bits above `len` are not
+counted, for borrowed storage too), and `select0(k)` (binary search over `rank0`) = position of the
+`k`-th close by the left-to-right scan, `none` for `k ≥` number of closes — for every constructor,
+select support, rate and build variant. -/
+theorem select0_eq (simd owned : Bool) (ws : List (BitVec 64)) (len : Nat) (k : SelKind) (j : Nat)
+    (hw : ws.length = (len + 63) / 64) (hlen : len < 2 ^ 32) :
+    (construct simd owned ws len k).map (fun I => (I.totalOnes, I.select0 j)) =
+      some ((bitsOf ws len).count true, BP.select0 (bitsOf ws len) j) := by
+  obtain ⟨h1, h2⟩ := stored_ok owned ws len hw
+  rw [construct_some simd owned ws len k hlen, Option.map_some, BPR.totalOnes_eq simd _ len k h1 hlen,
+    BPR.select0_eq simd _ len k j h1 hlen, h2]
+  rfl
+
+example : (construct false false [0xFFFFFFFFFFFFFFCB#64] 6 (.csPoppy 1)).map (fun I => (I.totalOnes, I.select0 1)) =
+    some (3, some 4) := by decide +kernel
+
 /-! ### operations not closed in this delivery (stated parts) -/
 
 /-- `select1` with `NoSelect` returns `None` for every `k` (documented: no select index; callers
 binary-search `rank1`). NOT PROVED in this delivery: `select1_eq` for `WithSelect` (sampled
 `SelectIndex<u32>` + `scan_select` + `select_in_word`) and `WithCsPoppy` (block samples at any rate,
-`partition_point` over `rank_l1`, the 9-bit offset walk) = `selectB true`, and `select0_eq` (binary
-search over `rank0`) = `selectB false`; they are modelled (`BP.select1`, `BP.select0`) and compared
-with the spec by the driver on every request. -/
+`partition_point` over `rank_l1`, the 9-bit offset walk) = `selectB true`; they are modelled
+(`BP.select1`) and compared with the spec by the driver on every request. -/
 theorem select1_noselect_partial (simd owned : Bool) (ws : List (BitVec 64)) (len : Nat) (k : Nat) (hlen : len < 2 ^ 32) :
     (construct simd owned ws len .noSelect).map (fun I => I.select1 k) = some none := by
   rw [construct_some simd owned ws len _ hlen, Option.map_some]
